@@ -83,8 +83,12 @@ def run_case(ctx, k, rng):
     if A.size and B.size and rng.random() < 0.25:
         isint = bool(np.all(A == np.round(A)) and np.all(B == np.round(B)) and sc < 1e9)
         r3 = rng.random()
-        if r3 < 0.35:       # another memory layout of the same float64 values
+        if r3 < 0.25:       # another memory layout of the same float64 values
             fa, fb = vforms.relayout(rng, A)[0], vforms.relayout(rng, B)[0]
+        elif r3 < 0.45:     # the documented Mx(>=2) form: further columns (homology dimension, ...) that are to be ignored
+            fa = vforms.with_extra_columns(rng, A) if rng.random() < 0.8 else A
+            fb = vforms.with_extra_columns(rng, B) if rng.random() < 0.8 else B
+            ctx.note("extra-column forms")
         else:
             fa, fb = (vforms.as_int_dtype(rng, A)[0], vforms.as_int_dtype(rng, B)[0]) if (isint and rng.random() < 0.5) else (A.tolist(), B.tolist())
         for kind, fn, tolrow in (("bn", bottleneck, 1e-9 * sc), ("ws", wasserstein, 1e-7 * sc)):
